@@ -140,14 +140,12 @@ AdaptCertificate(p, limit, allow, req) ==
             THEN (IF NumberOfClaims(r.p) > 0 THEN Err("nobridges") ELSE Err("complete"))
        ELSE r
 
-(* BlockRange *)
-BlockMinusOne(x) == IF x > 0 THEN x - 1 ELSE 0
-CountBlocks(r) == IF r.from = 0 /\ r.to = 0 THEN 0 ELSE IF r.from > r.to THEN 0 ELSE U(r.to - r.from + 1)
+(* BlockRange: the operators of GapOps.tla at this model's word width (GapInd.tla proves them with Apalache at 2^64) *)
+GO == INSTANCE GapOps WITH Mod <- Mod
+BlockMinusOne(x) == GO!BlockMinusOne(x)
+CountBlocks(r) == GO!CountBlocks(r)
 IsEmptyRange(r) == CountBlocks(r) = 0
-Gap(a, b) ==
-  IF a.to >= BlockMinusOne(b.from) /\ b.to >= BlockMinusOne(a.from) THEN [from |-> 0, to |-> 0]
-  ELSE IF a.to < b.from THEN [from |-> U(a.to + 1), to |-> U(b.from - 1)]
-  ELSE [from |-> U(b.to + 1), to |-> BlockMinusOne(a.from)]
+Gap(a, b) == GO!Gap(a, b)
 
 -----------------------------------------------------------------------------
 (* enumeration of the inputs *)
